@@ -928,6 +928,28 @@ func (g *Gen) clientOp() {
 		g.nextCtx++
 		g.lastCtx[id] = g.nextCtx
 		g.do(Action{K: AReadIndex, N: id, I: g.nextCtx})
+		// read burst: many reads issued back to back at one node, so that the
+		// leader's queue of unconfirmed reads grows long before the first
+		// heartbeat response comes back (queue positions, prefix release,
+		// forwarded and local requests interleaved)
+		if chance(g.rng, 0.05) {
+			k := 6 + g.rng.IntN(40)
+			if chance(g.rng, 0.1) {
+				k = 100 + g.rng.IntN(300)
+			}
+			g.c.stats.probe("read_burst")
+			for i := 0; i < k && g.c.viol == nil; i++ {
+				at := id
+				if chance(g.rng, 0.15) {
+					if o := g.targetNode(0.2); o != 0 {
+						at = o
+					}
+				}
+				g.nextCtx++
+				g.lastCtx[at] = g.nextCtx
+				g.do(Action{K: AReadIndex, N: at, I: g.nextCtx})
+			}
+		}
 	case 4:
 		id := g.targetNode(0.8)
 		if id == 0 {
